@@ -715,6 +715,11 @@ def special_programs():
         '  try this.g() returns (uint v) { x = v + 2; } catch Panic(uint c) { x = c * 4; }\n} function g() external returns (uint) { return 1; } }')
     add('deep-else-if', PRELUDE + 'contract D { uint last; uint never; function dispatch(uint s) public {\n  ' +
         ' else '.join('if (s == %d) { s = s + %d; }' % (i, i) for i in range(300)) + ' else { last = 1; }\n} }')
+    banner = '// ' + '\u2550' * 60 + '\n// \u00a9 d\u00e9p\u00f4t \u4ee3\u5e01 \u2192 \u2211 ' + '\u00e9' * 40 + '\n'
+    add('unicode-banner', banner + 'pragma solidity ^0.8.10;\ncontract A {\n  uint x;\n  address o;\n  function f(uint a, uint[] memory m) public returns (uint) {\n'
+        '    require(a > 0 && a >= 1, "msg");\n    x = x + 1;\n    x = a / 2 * 3;\n    for (uint i; i < m.length; i++) {\n      ++x;\n    }\n'
+        '    if (o == address(0)) {\n      x = a * 4;\n    }\n    IERC20(o).transfer(o, address(this).balance);\n    return x;\n  }\n'
+        '  function k() external {\n    selfdestruct(payable(o));\n  }\n  function _p() public {\n  }\n  uint public _q;\n}\n')
     add('free-functions', PRELUDE + 'function min(uint a, uint b) pure returns (uint) { return a < b ? a : b; }\n'
         'function twice(uint a) pure returns (uint) { return min(a, a) * 2; }\ncontract C { function f() public {} }\nfunction max(uint a, uint b) pure returns (uint) { return a >= b ? a : b; }')
     return P
